@@ -14,6 +14,8 @@ C15 op lines (shared with `dv-schema`):
   updpub i=<k> v=<version> [pri=…]         -> same as upd, through the public `update_data_model`
   put i=<k> e=<ns>:<Entity> r=<n> vals=f:i:5;g:s:abc   -> "ok" | "err:<class>"
   get i=<k> e=<ns>:<Entity> f=f1,f2        -> "rows r1:f1=5,f2=null;r2:…" | "err:<class>"
+  conf i=<k>                               -> "conf ok n=<rows>" | "conf bad n=<rows> r1,r4" | "not-running"
+                                              (every stored row against the live model, as a peer would check it)
 `pri=` is the visit-order hint observed by the harness: N:<ns> , E:<ns>:<entity> , F:<ns>:<entity>:<field>.
 
 Version encoding (no spaces):  ns blocks joined by "|" ; block = <nsname>!<entities joined by ";"> ;
@@ -174,9 +176,22 @@ def nsStr (n : Ns) : String :=
   let es := sortBy (fun (a b : Entity) => a.k ≤ b.k) n.ents
   String.join (s!"{n.name}@{n.id}" :: es.map fun e => ";" ++ entStr n e)
 
-def tableStr (m : Model) : String :=
+def shortStr (s : EShort) : String :=
+  match s with
+  | (none, k) => s!"{k}"
+  | (some i, k) => s!"{i}.{k}"
+
+def revStr (rev : List (EShort × String × String)) : String :=
+  joinWith "," (sortStr (rev.map fun x => shortStr x.1 ++ "=" ++ x.2.1 ++ ":" ++ x.2.2))
+
+/-- the namespaces and the reverse table `entities_short` -/
+def tableStrWith (m : Model) (rev : List (EShort × String × String)) : String :=
   let nss := sortBy (fun (a b : Ns) => a.id < b.id || (a.id == b.id && a.name ≤ b.name)) m.nss
-  String.join ("T" :: nss.map fun n => "|" ++ nsStr n)
+  String.join ("T" :: nss.map fun n => "|" ++ nsStr n) ++ "|#rev:" ++ revStr rev
+
+/-- for an instance the model keeps the namespaces only: the reverse table printed is the one every entity must
+    have an entry in (`C15_reverse_table_complete`) -/
+def tableStr (m : Model) : String := tableStrWith m m.rev
 
 def errStr (e : Err) : String :=
   match e with
@@ -203,7 +218,7 @@ def putErrStr : PutErr → String
 
 structure St where
   db : Bool
-  models : List Model
+  models : List DataModel
   insts : List Inst
 
 def St.init : St := { db := false, models := [], insts := [] }
@@ -233,7 +248,7 @@ def stepLine (d : Defects) (da : Adm.Defects) (s : St) (line : String) : St × S
   match toks with
   | "case" :: rest =>
     match nat? rest "id", kvs? rest "kind", nat? rest "n" with
-    | some i, some "dm", some n => ({ db := false, models := List.replicate n Model.empty, insts := [] }, s!"case {i}")
+    | some i, some "dm", some n => ({ db := false, models := List.replicate n DataModel.empty, insts := [] }, s!"case {i}")
     | some i, some "db", some n => ({ db := true, models := [], insts := List.replicate n Inst.fresh }, s!"case {i}")
     | some i, some "c14", _ => ({ db := false, models := [], insts := [] }, s!"case {i}")
     | _, _, _ => (s, "bad-op")
@@ -242,8 +257,8 @@ def stepLine (d : Defects) (da : Adm.Defects) (s : St) (line : String) : St × S
     | some i, some pri =>
       match s.models[i]? with
       | some m =>
-        let (m', r) := updateSystem d pri m Gen.sysVersion
-        ({ s with models := setAt s.models i m' }, resStr r ++ " " ++ tableStr m')
+        let (m', r) := m.apply d pri true Gen.sysVersion
+        ({ s with models := setAt s.models i m' }, resStr r ++ " " ++ tableStrWith m'.core m'.rev)
       | none => (s, "bad-op")
     | _, _ => (s, "bad-op")
   | "ver" :: rest =>
@@ -251,8 +266,8 @@ def stepLine (d : Defects) (da : Adm.Defects) (s : St) (line : String) : St × S
     | some i, some v, some pri =>
       match s.models[i]? with
       | some m =>
-        let (m', r) := update d pri m v
-        ({ s with models := setAt s.models i m' }, resStr r ++ " " ++ tableStr m')
+        let (m', r) := m.apply d pri false v
+        ({ s with models := setAt s.models i m' }, resStr r ++ " " ++ tableStrWith m'.core m'.rev)
       | none => (s, "bad-op")
     | _, _, _ => (s, "bad-op")
   | "start" :: rest =>
@@ -288,6 +303,19 @@ def stepLine (d : Defects) (da : Adm.Defects) (s : St) (line : String) : St × S
         ({ s with insts := setAt s.insts i x' }, match res with | none => "ok" | some pe => putErrStr pe)
       | none => (s, "bad-op")
     | _, _, _, _ => (s, "bad-op")
+  | "conf" :: rest =>
+    match nat? rest "i" with
+    | some i =>
+      match s.insts[i]? with
+      | some x =>
+        (s, match x.conf (fun _ _ => true) with
+            | none => "not-running"
+            | some bad =>
+              let total := x.rows.length
+              if bad.isEmpty then s!"conf ok n={total}"
+              else s!"conf bad n={total} " ++ joinWith "," ((sortBy (fun (a b : Nat × Bool) => a.1 ≤ b.1) bad).map fun b => s!"r{b.1}"))
+      | none => (s, "bad-op")
+    | none => (s, "bad-op")
   | "get" :: rest =>
     match nat? rest "i", (kvs? rest "e").bind parseEntRef, kvs? rest "f" with
     | some i, some (n, e), some fs =>
